@@ -36,6 +36,9 @@ def make_axis(rng, family: str, n: int, uniform: bool | None = None, origin: F =
         # guarantee separation >= 1e-3 of the extent
         ext = pts[-1] - pts[0]
         ok = all(pts[i + 1] - pts[i] >= 1e-3 * ext for i in range(n))
+        # the extent itself must be commensurate with the scale (one scale per document): a single random cut can land 1e-5 from the
+        # origin, and the other axis would then be 1e5 times longer - the reader's tolerance (1e-12 x smallest feature) drowns in rounding noise
+        ok = ok and ext >= 0.05 * scale * n
         if not ok:
             pts = [float(origin) + (k * scale) + (rng.random() * 0.5 * scale if 0 < k else 0.0) for k in range(n + 1)]
         return [F(p) for p in pts]
